@@ -611,7 +611,8 @@ class CooperativeAwarenessMessage:
         """
         heading_confidence = 126
         if epd <= 12.5:
-            heading_confidence = int(epd * 10)
+            # HeadingConfidence is 1..125 in units of 0.1 degree (1 = within 0.1 degree)
+            heading_confidence = max(1, int(epd * 10))
         return heading_confidence
 
     def __str__(self) -> str:
